@@ -11,8 +11,11 @@
                                         parts (header bytes, data bytes, is_file)
      reqs_within buf lim (reqs s')      every read request asked for <= buf bytes and position + size <= lim
      buf = max_memfile_size (read buffer, spool threshold, text cap);  m = max_body_size. *)
-From Verif Require Import lib.Base lib.Str lib.PyIntHex model.Stream model.Body model.Chunked model.BodyLimits
+From Verif Require Import lib.Base lib.Str lib.Utf8 lib.PyIntHex model.Stream model.Body model.Chunked
+     model.MultipartRef model.Multipart model.Fields model.BodyLimits
      gen.Gen proofs.C04_proofs proofs.C05_scan proofs.C05_proofs proofs.C13_proofs.
+From Verif Require model.BodyPipeline.
+From Verif Require Import proofs.C07_fields proofs.C07_spec proofs.C07_ref proofs.C07_pipeline proofs.C13_multipart.
 
 (* Content-Length framing, every data / declared length / buffer / limit / read
    fragmentation.  payload = min(CL, bytes that arrive).
@@ -141,6 +144,92 @@ Theorem C13_multipart_budget :
 Proof. exact C13_multipart_budget_lemma. Qed.
 Print Assumptions C13_multipart_budget.
 
+(* REFINEMENT to the real field layer (model/Fields.v, cluster mpB2: iter_items /
+   field_read = FieldStorage.iter_items / read).  For EVERY body and EVERY markup
+   list  Data(s0,e0<=0) :: m  whose parts have a budget view
+   (BodyLimits.triples_of body m = Some items: m alternates Headers/Data; each
+   triple is (e-s of the Headers section, e-s of the Data section, a filename is
+   present after header parsing); every part could fail for no reason other than
+   its size), iter_items behaves exactly as mp_budget on those triples:
+   it succeeds with one field per part iff the budget admits all of them, and
+   otherwise raises BodySizeError, precisely at part i (the first i parts alone
+   are read successfully), i being the index mp_budget names. *)
+Theorem C13_multipart_budget_is_iter_items :
+  forall (body : bytes) (s0 e0 : Z) (m : list section) (max_read : Z) (items : list mp_item),
+    (e0 <= 0)%Z ->
+    triples_of body m = Some items ->
+    match mp_budget items max_read 0 with
+    | BudgetOk _ =>
+      exists fs, iter_items body ((Data, s0, e0) :: m) max_read = IOk fs /\ length fs = length items
+    | BudgetExceeded i =>
+      iter_items body ((Data, s0, e0) :: m) max_read = IErr ESize
+      /\ i < length items
+      /\ exists fs, iter_items body ((Data, s0, e0) :: firstn (2 * i) m) max_read = IOk fs /\ length fs = i
+    end.
+Proof. exact C13_budget_is_iter_items_lemma. Qed.
+Print Assumptions C13_multipart_budget_is_iter_items.
+
+(* ... and the bodies a browser sends have that view: for every boundary and
+   every field list within C07's guards the triples of the scanner's sections are
+   (header-block bytes, data bytes, is upload) of the submitted fields, and their
+   need is C07's total_cost. *)
+Theorem C13_encoded_form_triples :
+  forall (B : bytes) (fs : list fld),
+    parts_ok B fs ->
+    triples_of (enc_form B fs) (tl (fst (ref_obs B (enc_form B fs)))) = Some (map item_of fs)
+    /\ need (map item_of fs) = total_cost fs.
+Proof. exact encoded_form_triples. Qed.
+Print Assumptions C13_encoded_form_triples.
+
+(* THROUGH THE WHOLE PIPELINE (model/BodyPipeline.v: process; CONTENT_TYPE regex,
+   framing, read loops under any schedule, streaming multipart parser, field
+   layer, _raise with the errors_map of the current source).  For the body a
+   browser sends for ANY field list within C07's guards, whole body within
+   max_body_size (if any): Request.forms / files / POST answer 413 EXACTLY when
+   the header blocks plus the TEXT values exceed max_memfile_size — the sizes of
+   the file parts play no role (total_cost does not contain them) — and
+   otherwise succeed with exactly the submitted fields. *)
+Theorem C13_form_text_capped_multipart :
+  forall (jk : bytes -> option BodyPipeline.jkind) (cfg : BodyPipeline.config) (b : str) (fs : list fld)
+         (sc : list nat) (a : BodyPipeline.access) (clraw : option str) (te : str),
+    form_access a ->
+    b <> [] -> lacks SEMI b -> lacks 10 b -> lacks 13 b -> scalars b ->
+    parts_ok (utf8_enc_str b) fs ->
+    (0 < BodyPipeline.c_memfile cfg)%nat ->
+    let body := enc_form (utf8_enc_str b) fs in
+    (forall m, BodyPipeline.c_maxbody cfg = Some m -> (length body <= m)%nat) ->
+    te_chunked te = false ->
+    BodyPipeline.content_length (BodyPipeline.mkFraming clraw te) = Some (Z.of_nat (length body)) ->
+    let out := BodyPipeline.process jk cfg (mp_ctype b) (BodyPipeline.mkFraming clraw te) (stream_init body sc) a in
+    ((total_cost fs > Z.of_nat (BodyPipeline.c_memfile cfg))%Z -> out = BodyPipeline.Client 413)
+    /\ ((total_cost fs <= Z.of_nat (BodyPipeline.c_memfile cfg))%Z ->
+        exists d, out = BodyPipeline.Ok (BodyPipeline.VMultipart d) /\ view body d = Some (expected fs)).
+Proof. exact C13_capped_multipart_lemma. Qed.
+Print Assumptions C13_form_text_capped_multipart.
+
+(* the same under chunked framing: every legal chunked encoding of the form *)
+Theorem C13_form_text_capped_multipart_chunked :
+  forall (jk : bytes -> option BodyPipeline.jkind) (cfg : BodyPipeline.config) (b : str) (fs : list fld)
+         (cs : list chunk) (last : chunk) (tail : list N) (sc : list nat) (a : BodyPipeline.access)
+         (clraw : option str) (te : str),
+    form_access a ->
+    b <> [] -> lacks SEMI b -> lacks 10 b -> lacks 13 b -> scalars b ->
+    parts_ok (utf8_enc_str b) fs ->
+    let body := enc_form (utf8_enc_str b) fs in
+    (forall m, BodyPipeline.c_maxbody cfg = Some m -> (length body <= m)%nat) ->
+    te_chunked te = true ->
+    BodyPipeline.content_length (BodyPipeline.mkFraming clraw te) <> None ->
+    Forall chunk_ok cs -> last_ok last -> payload_of cs = body ->
+    Forall (fun c => (line_len c <= BodyPipeline.c_memfile cfg)%nat) cs ->
+    (line_len last <= BodyPipeline.c_memfile cfg)%nat ->
+    let out := BodyPipeline.process jk cfg (mp_ctype b) (BodyPipeline.mkFraming clraw te)
+                                    (stream_init (enc_chunked cs last tail) sc) a in
+    ((total_cost fs > Z.of_nat (BodyPipeline.c_memfile cfg))%Z -> out = BodyPipeline.Client 413)
+    /\ ((total_cost fs <= Z.of_nat (BodyPipeline.c_memfile cfg))%Z ->
+        exists d, out = BodyPipeline.Ok (BodyPipeline.VMultipart d) /\ view body d = Some (expected fs)).
+Proof. exact C13_capped_multipart_chunked_lemma. Qed.
+Print Assumptions C13_form_text_capped_multipart_chunked.
+
 (* the statuses come from the errors_map of the current source *)
 Example C13_status_of_size_error :
   raise_status Gen.errors_map cls_BodySizeError cls_RequestError = Some 413%Z
@@ -190,3 +279,19 @@ Theorem C13_reads_at_most_one_buffer :
     0 < buf -> bres_small buf (body_read (stream_init data sc) buf maxb cl chunked).
 Proof. exact C13_reads_small_lemma. Qed.
 Print Assumptions C13_reads_at_most_one_buffer.
+
+(* non-vacuity of the refinement on a real body: boundary "BnD", a 5-byte text
+   field, a 60-byte upload, an empty text field; need = 40 + 5 + 98 + 40 = 183 *)
+Definition ex13_form : list fld :=
+  [FText [97]%N [100; 100; 100; 100; 100]%N;
+   FFile [102]%N [120; 46; 98; 105; 110]%N
+         [97; 112; 112; 108; 105; 99; 97; 116; 105; 111; 110; 47; 111; 99; 116; 101; 116; 45; 115; 116; 114; 101; 97; 109]%N
+         (repeat 70%N 60);
+   FText [101]%N []].
+
+Example C13_nonvacuous_multipart :
+  total_cost ex13_form = 183%Z
+  /\ mp_run [66; 110; 68]%N (enc_form [66; 110; 68]%N ex13_form) 183 = [0; 3]%Z
+  /\ mp_run [66; 110; 68]%N (enc_form [66; 110; 68]%N ex13_form) 182 = [1; 2; 413]%Z
+  /\ mp_run [66; 110; 68]%N (enc_form [66; 110; 68]%N ex13_form) 44 = [1; 0; 413]%Z.
+Proof. vm_compute. repeat split. Qed.
